@@ -21,45 +21,51 @@ LEVEL = "exploration"
 SHARDS = {"quick": 8, "thorough": 16}
 BUDGET = {"quick": 26.0, "thorough": 420.0}
 REQUIRE = {
-    "cases": 20000,
-    "segments_decoded": 20000,
-    "order_checks": 20000,
-    "omitted_chars_judged": 5000,
+    "cases": 5000,
+    "segments_decoded": 5000,
+    "order_checks": 5000,
+    "omitted_chars_judged": 2000,
     "omitted_zero_width_only_line_chars": 20,
-    "wrap_spaces_consumed": 1000,
+    "wrap_spaces_consumed": 300,
     "any_fill_checks": 500,
     "space_break_checks": 300,
     "space_breaks_next_to_wide": 10,
     "space_texts_with_overlong_word": 100,
-    "align_checks": 10000,
+    "align_checks": 5000,
     "unrenderable_checks": 100,
-    "rows_rendered": 20000,
-    "row_bytes_compared": 20000,
-    "rows_eq_checks": 20000,
+    "rows_rendered": 10000,
+    "row_bytes_compared": 10000,
+    "rows_eq_checks": 5000,
     "pack_checks": 2000,
     "ellipsis_rows_with_mark": 200,
     "clip_rows_windowed": 200,
     "cache_coherence_checks": 2000,
-    "window_checks": 200,
-    "same_config_other_width_cases": 1000,
-    "text_only_change_cases": 300,
-    "rows_before_render_checks": 5000,
-    "random_cases": 1000,
+    "window_checks": 60,
+    "same_config_other_width_cases": 500,
+    "text_only_change_cases": 150,
+    "rows_before_render_checks": 2500,
+    "random_cases": 200,
+    "exh_strings:P0": 100,
     "dec_glyph_rows": 20,
     "enc:utf8/str": 2000,
     "enc:utf8/bytes": 2000,
-    "enc:wide/str": 2000,
-    "enc:wide/bytes": 2000,
-    "enc:narrow/str": 2000,
-    "enc:narrow/bytes": 2000,
+    "enc:wide/str": 1000,
+    "enc:wide/bytes": 1000,
+    "enc:narrow/str": 1000,
+    "enc:narrow/bytes": 1000,
 }
 RULE = (
-    "case = (encoding, str|bytes text, width, wrap, align) evaluated on a long-lived Text widget; exhaustive: all strings "
-    "of length <=5 (quick; <=7 thorough, budget permitting, flag exhaustive_complete) over {a,b,space,newline,wide,"
-    "zero-width/1-byte-high} filtered to the characters whose encoded length equals their wcwidth in the encoding x "
-    "widths 1..6 x {any,space,clip,ellipsis} x {left,center,right} x {str,bytes} x {utf-8, euc-jp, iso8859-1}; random: "
-    "texts to length 60 over ASCII/Latin-1/CJK/combining/ZWJ/emoji/line-drawing, widths to 40, also gbk/big5/ascii/koi8-r; "
-    "distinct = distinct case tuples; non-trivial = text non-empty"
+    "case = (encoding, str|bytes text, width, wrap, align) evaluated on a long-lived Text widget (reconfigured through "
+    "set_text/.wrap/.align; rows() before and after render(); pack()). Alphabet {a,b,space,newline,wide 漢,combining acute} "
+    "filtered per encoding to characters whose encoded length equals their wcwidth (iso8859-1 gets é instead). "
+    "P0: every string of length <=3 (quick) / <=4 (thorough) x widths 1..6 x {any,space,clip,ellipsis} x {left,center,right} "
+    "x {str,bytes} x {utf-8, euc-jp, iso8859-1}; PA/PB: every string up to length 5 (quick) / 7 (thorough) x widths x wraps "
+    "with rotating alignment (PA: utf-8 str + euc-jp/iso8859-1 bytes, PB: the other text type); PC: full alignment product "
+    "on a stride. Phases run in this order inside ~78% of the time budget (counters exh_strings:<phase>; "
+    "exh_phase_complete:<phase> = number of shards that finished it). Rest of the budget: random texts to length 60 over "
+    "ASCII/Latin-1/CJK/combining/ZWJ/VS16/emoji/line-drawing, widths to 40, encodings utf-8, euc-jp, gbk, big5, iso8859-1, "
+    "ascii, koi8-r, plus same-config-other-width and text-only-change follow-ups (translation cache), pack(())/render(()) "
+    "and shift_line/trim_line window views. distinct = distinct case tuples; non-trivial = text non-empty"
 )
 ASSUMES = [
     "display width of a code point = max(0, wcwidth.wcwidth(cp)); str texts are judged by code point, bytes by the encoding mode",
@@ -179,9 +185,12 @@ def check_case(ctx, st, case, collect, fresh=False, light=False):
                     tw.render((prev["width"],))
                 except Exception:  # noqa: BLE001  (judged when that configuration was the case)
                     pass
-                tw.set_text(text)
-                tw.align = align
-                tw.wrap = wrap
+                if prev["text"] != text or type(prev["text"]) is not type(text):
+                    tw.set_text(text)
+                if prev["align"] != align:
+                    tw.align = align
+                if prev["wrap"] != wrap:
+                    tw.wrap = wrap
             else:
                 tw = urwid.Text(text, align=align, wrap=wrap)
             if not fresh:
@@ -419,7 +428,7 @@ def shrink(ctx, case, core):
             cur = c
     if not still(cur):
         return None
-    for _pass in range(3):
+    for _pass in range(12):
         before = dict(cur)
         if "align" in cur and cur["align"] != "left":
             c = dict(cur, align="left")
@@ -511,7 +520,7 @@ def report(ctx, case, collected, cache=None):
                 ctx.count("violations_raw")
                 ctx.count("violations_not_reshrunk")
                 continue
-        small = shrink(ctx, case, core) if not ctx.replaying else case
+        small = shrink(ctx, case, core)
         if small is None:
             # reproduces only on the long-lived widget: keep the case with its history
             small = case
@@ -565,7 +574,13 @@ def witness_code(c):
     pre = ""
     if c.get("prev"):
         p = c["prev"]
-        pre = f"t=urwid.Text({p['text']!r}, align={p['align']!r}, wrap={p['wrap']!r}); t.render(({p['width']},)); t.set_text({c['text']!r}); t.align={c['align']!r}; t.wrap={c['wrap']!r}; "
+        pre = f"t=urwid.Text({p['text']!r}, align={p['align']!r}, wrap={p['wrap']!r}); t.rows(({p['width']},)); t.render(({p['width']},)); "
+        if p["text"] != c["text"]:
+            pre += f"t.set_text({c['text']!r}); "
+        if p["align"] != c["align"]:
+            pre += f"t.align={c['align']!r}; "
+        if p["wrap"] != c["wrap"]:
+            pre += f"t.wrap={c['wrap']!r}; "
     else:
         pre = f"t=urwid.Text({c['text']!r}, align={c['align']!r}, wrap={c['wrap']!r}); "
     return head + pre + f"print(t.get_line_translation({c['width']}), t.rows(({c['width']},))); print(t.render(({c['width']},)).text)"
@@ -664,14 +679,14 @@ def _run(ctx):
                     run_one(ctx, st, {"kind": "window", "enc": enc, "text": t, "width": w, "shift": k})
 
     # ---- exhaustive core, in phases ordered by value so that a budget cut (loaded machine) loses the least:
-    #   P0  every string of length <= maxlen-2: full product widths x wraps x aligns x {str, bytes} x 3 encodings
+    #   P0  every string of length <= 3 (quick) / 4 (thorough): full product widths x wraps x aligns x {str, bytes} x 3 encodings
     #   PA  every longer string: widths x wraps, alignment rotating; utf-8 as str, euc-jp / iso8859-1 as bytes
     #   PB  the other text type of PA (utf-8 bytes; euc-jp / iso8859-1 str)
     #   PC  full alignment product on a stride of the longer strings
     # Each shard counts the phases it completed (counter exh_phase_complete:<P> == number of shards when complete).
     frac = ctx.pick(0.75, 0.82)
     ctx.extra["exhaustive_maxlen"] = maxlen
-    short = maxlen - 2
+    short = ctx.pick(3, 4)
 
     def strings(lens):
         i = 0
